@@ -24,7 +24,7 @@ static const char *strs[4] = { "", "a", "hello", "percent%sign and spaces" };
 /* arguments as the format needs them (all travel as uintptr_t through mlog's varargs, like any caller's) */
 static void args_for(int i, unsigned long a[3])
 {
-	if (i == 10) a[0] %= 13;                                   /* width 0..12 */
+	if (i == 10) a[0] %= 1100;                                 /* width 0..1099: line lengths across 64/128/256/512/1024 */
 	if (i == 12) a[0] = (unsigned long)strs[a[0] & 3];
 	if (i == 13) { a[0] %= 7; a[1] = (unsigned long)strs[a[1] & 3]; }
 }
